@@ -9,6 +9,7 @@ From PSA Require Import model.Bytes model.Dhcp model.Clients model.Ipdb spec.Spe
   proofs.ConfigProofs.
 From PSA Require Import spec.Monitors.
 From PSA Require Import spec.WireHyps spec.WireExample proofs.WireProofs proofs.WireInv proofs.WireLease proofs.WireSnap proofs.WireHypsProofs proofs.WireExampleProofs.
+From PSA Require Import proofs.WireConfig.
 Open Scope N_scope.
 
 (* For every configuration the server accepts (any subset of fields set globally and per client, any list
@@ -72,6 +73,18 @@ Print Assumptions C07_on_the_wire.
 Theorem C07_premises : forall c h, wire_hyps c h = true -> wire_premises c h.
 Proof. exact wire_hyps_premises. Qed.
 Print Assumptions C07_premises.
+
+(* The option-list premises of the wire-level theorems are not assumptions about the configuration: for EVERY configuration the
+   model of server.New accepts (strings being byte strings) and every hardware address, the list dhcpOptions builds fits an option
+   area, every payload is bytes of at most 255, none of its codes is 53 or 54 (cfg_wire_ok's opts_ok), option 51 carries exactly the
+   whole seconds of the duration handed to the lease database - never more than is reserved (cfg_lease_ok, cfg_c07_ok) - and a
+   netmask is present. *)
+Theorem C07_option_premises_hold : forall c own own_mac s mac ns, new_server c own own_mac = Ok s -> config_bytes_ok c -> g_lease c = Dur ns ->
+  let os := effective_options s mac in
+  opts_ok os = true /\ o_lease (decode_options os) = Z.to_N (reserved_ns s / 1000000000) /\
+  (Z.of_N (o_lease (decode_options os)) * 1000000000 <= reserved_ns s)%Z /\ o_mask (decode_options os) <> None.
+Proof. exact server_option_premises. Qed.
+Print Assumptions C07_option_premises_hold.
 
 (* the premises hold of, and the acceptor accepts, a recorded history of the real server (OFFER, ACK, NAK on an ARP conflict, silent rounds) *)
 Theorem C07_wire_nonvacuous : exists c h, wire_example = Some (c, h) /\ wire_premises c h /\ accepted c h /\
